@@ -309,15 +309,21 @@ func scenarioC12(c *hlib.RunCtx) *hlib.Violation {
 		case 4: // one unapproved item
 			if len(r.Programs) > 0 {
 				p := r.Programs[t.Draw(len(r.Programs))]
-				switch t.Draw(10) {
+				switch t.Draw(11) {
+				case 10:
+					// an approved counter's name followed by a newline and more
+					var keys []string
+					for k := range p.Counters {
+						keys = append(keys, k)
+					}
+					sort.Strings(keys)
+					if len(keys) > 0 {
+						p.Counters[keys[0]+"\nsecret/path:12"] = 1
+					} else {
+						p.Counters["plain\nsecret/path:12"] = 1
+					}
 				case 7:
 					p.Counters["crash/crash\nmain.main:+1,+0x1"] = 1 // a stack-shaped key among the counters
-					for k := range p.Counters {
-						if !strings.Contains(k, "\n") {
-							p.Counters[k+"\nsecret/path:12"] = 1 // an approved counter's name followed by a newline and more
-							break
-						}
-					}
 				case 8:
 					p.Stacks["\nmain.main:+1,+0x1"] = 1 // a stack whose first line is empty
 				case 9:
@@ -733,7 +739,18 @@ func scenarioC11(c *hlib.RunCtx) *hlib.Violation {
 				pr.Stacks = map[string]int64{}
 			}
 			what := ""
-			switch t.Draw(8) {
+			switch t.Draw(10) {
+			case 8:
+				// a key of the other kind: a stack-shaped key among the counters (an
+				// approved counter's or stack's name, a newline, more text)
+				nm := append(append([]string{}, mgen.LocalCounterPool...), mgen.CfgStackPool...)[t.Draw(len(mgen.LocalCounterPool)+len(mgen.CfgStackPool))] + "\nsecret/path:12"
+				pr.Counters[nm] = 1
+				what = "counter " + strings.ReplaceAll(nm, "\n", "\\n")
+			case 9:
+				// ... and a plain name among the stacks
+				nm := mgen.LocalCounterPool[t.Draw(len(mgen.LocalCounterPool))]
+				pr.Stacks[nm] = 1
+				what = "stack " + nm
 			case 0:
 				pr.Program = mgen.ProgramPool[t.Draw(len(mgen.ProgramPool))].Path
 				what = "program " + pr.Program
